@@ -1,7 +1,11 @@
-(* Correspondence definitions for C23: run the trigger model on the histories the engine ran. *)
+(* Correspondence definitions for C23: run the trigger models on the histories the engine ran.
+   [Case]: plain bodies, ANY number of FOLLOWS / PRECEDES clauses - the firing order is the model of plan.OrderTriggers
+   (Store/C23Order.v), a statement whose event's ordering panics must have been seen panicking ([EvP]).
+   [CaseR]: rich bodies (IF, SIGNAL, several statements, nested INSERT into t2 with its own triggers), primary key
+   updates, failing statements (Store/C23Rich.v). *)
 From Coq Require Import List ZArith Bool.
 Import ListNotations.
-From GMS Require Import Store.C23Trigger.
+From GMS Require Import Store.C23Trigger Store.C23Order Store.C23Rich.
 Open Scope Z_scope.
 
 Definition R (k v : Z) : row := (k, v).
@@ -10,9 +14,16 @@ Definition T (tm : ttime) (tag : Z) (x y : field) (s : option setop) (c : clause
   (mkTrig tm tag x y s, c).
 
 (* statement, observed failure flag, table after, audit rows written by the statement in order *)
-Inductive ev := Ev (q : stmt) (failed : bool) (tb : table) (log : list entry).
-(* triggers in creation order per event *)
-Inductive case := Case (ins upd del : list (trigger * clause)) (h : list ev).
+Inductive ev :=
+| Ev (q : stmt) (failed : bool) (tb : table) (log : list entry)
+| EvP (q : stmt) (tb : table).                       (* the statement panicked *)
+
+(* rich: statement, failed?, table after, audit rows, t2 rows written by the statement *)
+Inductive evr := EvR (q : rstmt) (failed : bool) (tb : table) (log : list entry) (ch : list row).
+
+Inductive case :=
+| Case (ins upd del : list (trigger * clause)) (h : list ev)          (* triggers in creation order per event *)
+| CaseR (ins upd del t2 : list rtrigger) (h : list evr).
 
 Fixpoint rows_eqb (a b : list row) : bool :=
   match a, b with
@@ -27,17 +38,46 @@ Fixpoint log_eqb (a b : list entry) : bool :=
   | _, _ => false
   end.
 
-Fixpoint ok_from (s : trigset) (tb : table) (h : list ev) : bool :=
+Definition ord (l : list (trigger * clause)) : option (list trigger) :=
+  option_map (fun p => fst p ++ snd p) (go_order l).
+
+Definition sel (q : stmt) (oi ou od : option (list trigger)) : option (list trigger) :=
+  match q with SIns _ => oi | SUpd _ _ => ou | SDel _ => od end.
+
+Fixpoint ok_from (oi ou od : option (list trigger)) (tb : table) (h : list ev) : bool :=
   match h with
   | [] => true
   | Ev q f tobs lobs :: h' =>
-      let '(tb', log, f') := exec s tb q in
-      Bool.eqb f f' && rows_eqb tb' tobs && log_eqb log lobs && ok_from s tobs h'
+      match sel q oi ou od with
+      | None => false
+      | Some ts =>
+          let '(tb', log, f') := exec (mkSet ts ts ts) tb q in
+          Bool.eqb f f' && rows_eqb tb' tobs && log_eqb log lobs && ok_from oi ou od tobs h'
+      end
+  | EvP q tobs :: h' =>
+      match sel q oi ou od with
+      | None => rows_eqb tb tobs && ok_from oi ou od tobs h'
+      | Some _ => false
+      end
   end.
 
+Fixpoint okr_from (s : rset_trigs) (tb : table) (h : list evr) : bool :=
+  match h with
+  | [] => true
+  | EvR q f tobs lobs cobs :: h' =>
+      let '(tb', e, o) := rexec s tb q in
+      Bool.eqb f (match o with Ok => false | _ => true end) && rows_eqb tb' tobs && log_eqb (audits e) lobs &&
+      rows_eqb (childs e) cobs && okr_from s tobs h'
+  end.
+
+Definition no_signal (t : rtrigger) : bool :=
+  forallb (fun b => match b with BSignal _ _ => false | BS (SChild _ _) => false | _ => true end) (r_body t).
+
 Definition ok (c : case) : bool :=
-  match c with Case i u d h =>
-    ok_from (mkSet (order_triggers i []) (order_triggers u []) (order_triggers d [])) [] h end.
+  match c with
+  | Case i u d h => ok_from (ord i) (ord u) (ord d) [] h
+  | CaseR i u d t2 h => forallb no_signal t2 && okr_from (mkRS i u d t2) [] h
+  end.
 
 Definition mismatches (cs : list (N * case)) : list N :=
   map fst (filter (fun p => negb (ok (snd p))) cs).
